@@ -238,7 +238,8 @@ def run_property(pid, tier, budget=1.0, jobs=0, use_known=True):
             print(f"HARNESS-ERROR replay of {e['id']} failed to execute")
             return 2
         hit = [b for b, _ in verdicts if re.fullmatch(e["bucket"], b)]
-        other = [(b, d) for b, d in verdicts if not re.fullmatch(e["bucket"], b)]
+        # other buckets on the same replay are fine if another recorded finding of this property covers them
+        other = [(b, d) for b, d in verdicts if not re.fullmatch(e["bucket"], b) and (e["status"] != "known" or not _attribute(mod, known, b, data["case"]))]
         if e["status"] == "known":
             if hit:
                 print(f"KNOWN-FINDING: property={pid} {e['id']}: {e['what']}", flush=True)
